@@ -455,8 +455,14 @@ def build() -> Check:
     # work to do in this invocation: counting it keeps the logger muted while new code runs; leaving a terminal status out un-mutes early)
     from sa.common import replay_completed_statuses
     term = terminal_statuses(prog)
-    tests = replay_completed_statuses(prog)
-    ck.floor("replay_status_tests", len(tests), 1)
+    try:
+        tests = replay_completed_statuses(prog)
+    except AnalysisError as e_:
+        # no status test of the expected shape: undecided here - the small-history rule below (R6) still judges what the code does (mutscan 4: the status
+        # conjunct dropped altogether - every recorded operation, in flight or not, counts as completed)
+        tests = []
+        ck.undecided_rule(f"R4.terminal-set: {e_}")
+    ck.analysed["replay_status_tests"] = len(tests)
     for got, where in tests:
         ck.ob("R4.terminal-set", "state.py:ExecutionState.track_replay", got == term,
               f"{where} counts {sorted(got)} as completed; the operations that can no longer change are {sorted(term)} "
